@@ -488,6 +488,10 @@ func runStraceClose(c *core.Ctx) {
 			args = append(args, in)
 			res = cmdx.Run("/bin/sh", append([]string{"-c", `exec strace "$@" > "$VH_OUT"`, "sh"}, args...), cmdx.Opt{Env: []string{"VH_OUT=" + out}})
 		} else {
+			if c.Idx%2 == 1 {
+				// the result replaces a file left by an earlier run
+				os.WriteFile(out, []byte(">old\nacgt\n"), 0o644)
+			}
 			args = append(args, "-o", out, in)
 			res = cmdx.Run("strace", args, cmdx.Opt{})
 		}
@@ -495,7 +499,7 @@ func runStraceClose(c *core.Ctx) {
 		os.Remove(out)
 		c.Count("evaluations", 1)
 		c.Count("strace_runs", 1)
-		det := map[string]any{"command": cm.bin, "args": base, "records": n, "close_errno": errno, "output_on_stdout": toStdout, "exit": res.Exit, "strace": cmdx.Tail(tr, 400), "stderr": cmdx.Tail(res.Stderr, 600)}
+		det := map[string]any{"command": cm.bin, "args": base, "records": n, "close_errno": errno, "output_on_stdout": toStdout, "output_file_exists_before": !toStdout && c.Idx%2 == 1, "exit": res.Exit, "strace": cmdx.Tail(tr, 400), "stderr": cmdx.Tail(res.Stderr, 600)}
 		if res.TimedOut {
 			c.Inconclusive("watchdog on strace " + cm.bin)
 			continue
